@@ -15,6 +15,8 @@ PRIMS = ["num", "str", "bool", "int", "uri"]
 METHODS = ["get", "put", "post", "patch", "delete", "options", "head"]
 MEDIA = ["application/json", "text/plain", "application/xml"]
 STATUS = ["200", "201", "204", "400", "404", "4XX", "5XX", "500"]
+# numbers that are no HTTP status (a located error where a status is wanted), up to the widths of the integer types involved
+NOSTATUS = ["0", "99", "600", "65535", "65536", "4294967296", "18446744073709551615"]
 
 
 def N(k, s="", q="", n=0, a=None):
@@ -100,6 +102,8 @@ class Gen:
             elif n["s"] == "str":
                 anns = [AE("pattern", "^p%d+$" % k, "s", w)] if k % 2 else [AE("minLength", str(k % 5), "n", w), AE("format", "date", "s", w)]
             anns.append(AE("description", "prim %d" % k, "s", w))
+            if k % 4 == 0:                                      # the type's default for properties without a mark
+                anns.append(AE("required", "true" if k % 8 else "false", "b", w))
         elif n["k"] in ("obj", "arr"):
             anns = [AE("description", "desc %d" % k, "s", w)] + ([AE("title", "title %d" % k, "s", w)] if k % 2 else [])
         elif n["k"] == "op" and n["s"] in ("|", "~", "&"):
@@ -177,7 +181,7 @@ class Gen:
 
     def g_status(self, d):
         def make():
-            v = self.pick(STATUS)
+            v = self.pick(NOSTATUS) if self.chance(self.p_bad) else self.pick(STATUS)
             return N("lit", "status" if v.endswith("XX") else "num", v)       # a numeric code is a number literal
         return self.ref_or("status", d, make)
 
